@@ -244,3 +244,100 @@ Definition entry_xpknown (a : list str) : list str :=
   | None => bad
   | Some (m, e, o, w) => [enc_bool (known_at_null o e w); enc_bool (frag w)]
   end.
+
+(** brace expansion.  args: enabled text tree ; tree: "N" (none) | "Y" nodes
+    nodes: N node* ; node: "T" s | "E" M member* ; member: "n" a b i | "c" a b i | "C" nodes
+    entry_brace  -> [text handed to the word parser]      (model)
+    entry_bspec  -> the words of the specification *)
+From BV Require Import Expand.Brace.
+
+Fixpoint dec_bnode (fuel : nat) (a : list str) : option (bnode * list str) :=
+  match fuel with O => None | S fuel =>
+  let dec_nodes := fix dn (n : nat) (a : list str) : option (list bnode * list str) :=
+    match n with
+    | O => Some ([], a)
+    | S k => match dec_bnode fuel a with
+             | Some (x, r) => match dn k r with Some (l, r') => Some (x :: l, r') | None => None end
+             | None => None
+             end
+    end in
+  let dec_member := fun (a : list str) =>
+    match a with
+    | t :: r =>
+        let c := tag t in
+        if N.eqb c 110 then
+          match r with x :: y :: i :: r' => Some (BNum (dec_Z x) (dec_Z y) (dec_Z i), r') | _ => None end
+        else if N.eqb c 99 then
+          match r with x :: y :: i :: r' => Some (BChr (tag x) (tag y) (dec_Z i), r') | _ => None end
+        else if N.eqb c 67 then
+          match r with
+          | n :: r' => match dec_nodes (dec_nat n) r' with Some (l, r'') => Some (BChild l, r'') | None => None end
+          | [] => None
+          end
+        else None
+    | [] => None
+    end in
+  let dec_members := fix dm (n : nat) (a : list str) : option (list bmember * list str) :=
+    match n with
+    | O => Some ([], a)
+    | S k => match dec_member a with
+             | Some (x, r) => match dm k r with Some (l, r') => Some (x :: l, r') | None => None end
+             | None => None
+             end
+    end in
+  match a with
+  | t :: r =>
+      let c := tag t in
+      if N.eqb c 84 then match r with s :: r' => Some (BText s, r') | [] => None end
+      else if N.eqb c 69 then
+        match r with
+        | n :: r' => match dec_members (dec_nat n) r' with Some (l, r'') => Some (BExpr l, r'') | None => None end
+        | [] => None
+        end
+      else None
+  | [] => None
+  end end.
+
+Fixpoint dec_bnodes (fuel : nat) (n : nat) (a : list str) : option (list bnode * list str) :=
+  match n with
+  | O => Some ([], a)
+  | S k => match dec_bnode fuel a with
+           | Some (x, r) => match dec_bnodes fuel k r with Some (l, r') => Some (x :: l, r') | None => None end
+           | None => None
+           end
+  end.
+
+Definition dec_tree (a : list str) : option (option (list bnode)) :=
+  match a with
+  | t :: r =>
+      if N.eqb (tag t) 78 then Some None
+      else match r with
+           | n :: r' => match dec_bnodes (length a) (dec_nat n) r' with
+                        | Some (l, _) => Some (Some l)
+                        | None => None
+                        end
+           | [] => None
+           end
+  | [] => None
+  end.
+
+Definition entry_brace (a : list str) : list str :=
+  match a with
+  | en :: text :: r =>
+      match dec_tree r with
+      | Some tree => [brace_expand_text (dec_bool en) text tree]
+      | None => bad
+      end
+  | _ => bad
+  end.
+
+Definition entry_bspec (a : list str) : list str :=
+  match a with
+  | en :: text :: r =>
+      match dec_tree r with
+      | Some (Some ns) => if dec_bool en then spec_words ns else [text]
+      | Some None => [text]
+      | None => bad
+      end
+  | _ => bad
+  end.
